@@ -453,6 +453,37 @@ func runC12(c *core.Ctx, idx int) {
 				}
 			}
 		}
+		// bool literals as operands: every other atom is spelled true / false according to the assignment (so the text
+		// changes with it), the rest are bool symbols
+		if n <= 4 && (idx >= nChunks || ski%2 == 0) {
+			for m := 0; m < 1<<n; m++ {
+				asg := make([]bool, n)
+				row := memsym.NewRow(tbl)
+				for i := 0; i < n; i++ {
+					asg[i] = m&(1<<i) != 0
+					row.Vals[c12Sym("p", i)] = asg[i]
+				}
+				lit := func(i int) ql.Stream {
+					if (i+variant)%2 == 0 {
+						return ql.Stream{ql.K(fmt.Sprint(asg[i]))}
+					}
+					return ql.Stream{ql.T(c12Sym("p", i))}
+				}
+				st := sk.stream(lit)
+				for _, text := range []string{st.Canon(), st.Respell(r)} {
+					q, err := ast.Parse(tbl, text)
+					c.Eval()
+					c.Count("expressions_with_bool_literals", 1)
+					if err != nil {
+						c.Violationf("C12 well-formed boolean expression rejected", map[string]any{"query": text}, "%q: %v", text, err)
+						continue
+					}
+					if got := q.EvalBool(row); got != sk.eval(asg) {
+						c.Violationf("C12 truth table differs from and-before-or grouping (bool literals among the operands)", map[string]any{"query": text}, "query %q with the symbols set to %v evaluates to %v, expected %v", text, asg, got, sk.eval(asg))
+					}
+				}
+			}
+		}
 		if bolt != nil && n <= 6 && (idx >= nChunks || ski%3 == 0) {
 			bolt.check(c, sk, n, variant)
 		}
